@@ -183,6 +183,8 @@ impl<T: ?Sized + Trace> Drop for Weak<T> {
 
             if metadata.as_ref().weak_counter_marker.counter() == 0 && !metadata.as_ref().weak_counter_marker.is_accessible() {
                 // No weak pointer is left and the CcBox has been deallocated, so just deallocate the metadata
+                #[cfg(feature = "verif-hooks")]
+                crate::verif::probe(14);
                 dealloc_other(metadata);
             }
         }
@@ -285,6 +287,8 @@ let cyclic = Cc::new_cyclic(|weak| {
 
         impl<T: Trace> Drop for PanicGuard<T> {
             fn drop(&mut self) {
+                #[cfg(feature = "verif-hooks")]
+                crate::verif::probe(25);
                 unsafe {
                     let layout = self.invalid_cc.as_ref().layout();
 
